@@ -18,7 +18,7 @@ type c15 struct{}
 func (c15) ID() string    { return "C15" }
 func (c15) Level() string { return "model_checking" }
 func (c15) Rule() string {
-	return "explicit-state BFS: initial states = every project on <=3 services with profile sets over {p,q} per service and every DAG with absent/required/optional edges (plus resources referenced by subsets of services); transitions = WithProfiles(every subset of {p,q,*}), WithServicesEnabled / WithServicesDisabled (empty, singletons, pairs over names + unknown), WithSelectedServices (same x 3 policies), WithoutUnnecessaryResources, each executed by the real method; canonical state hashing; every transition checked against a set-based reference relation (Appendix A.3) and re-executed under 3 (quick; complete for the <=3-entry service maps) / 8 (thorough) map-iteration rotations that must give deep-equal results. distinct = distinct (project, state) pairs expanded"
+	return "explicit-state BFS: initial states = every project on <=3 services with profile sets over {p,q} per service and every DAG with absent/required/optional edges (plus resources referenced by subsets of services, and bind / npipe mounts whose source is spelled like a declared volume); transitions = WithProfiles(every subset of {p,q,*}), WithServicesEnabled / WithServicesDisabled (empty, singletons, pairs over names + unknown), WithSelectedServices (same x 3 policies), WithoutUnnecessaryResources, each executed by the real method; canonical state hashing; every transition checked against a set-based reference relation (Appendix A.3) and re-executed under 3 (quick; complete for the <=3-entry service maps) / 8 (thorough) map-iteration rotations that must give deep-equal results. distinct = distinct (project, state) pairs expanded"
 }
 func (c15) Assumptions() []string {
 	return []string{
@@ -52,7 +52,9 @@ func (m c15proj) build() *types.Project {
 		nm := c15names[i]
 		s := types.ServiceConfig{Name: nm, Image: "img", Profiles: append([]string{}, m.prof[i]...),
 			Networks: map[string]*types.ServiceNetworkConfig{"r" + nm: nil},
-			Volumes:  []types.ServiceVolumeConfig{{Type: "volume", Source: "r" + nm, Target: "/v"}, {Type: "bind", Source: "/host", Target: "/h"}},
+			Volumes: []types.ServiceVolumeConfig{{Type: "volume", Source: "r" + nm, Target: "/v"}, {Type: "bind", Source: "/host", Target: "/h"},
+				// mounts of other types whose source happens to be spelled like a declared volume are not references to it
+				{Type: "bind", Source: "unused", Target: "/u"}, {Type: "npipe", Source: "shared", Target: "/p"}},
 		}
 		p.Networks["r"+nm] = types.NetworkConfig{Name: "p_n" + nm}
 		p.Volumes["r"+nm] = types.VolumeConfig{Name: "p_v" + nm}
